@@ -38,6 +38,11 @@ ALLOWED_SETREF = {
 def run(model, col, tier):
     G = Grammar(model)
     D = Dispatch(model)
+    check_allocator(model, col)
+    run_rest(model, col, tier, G, D)
+
+
+def check_allocator(model, col):
     # ---------------- R14.1 ------------------------------------------------------
     sites = []
     for cls in model.classes.values():
@@ -82,6 +87,13 @@ def run(model, col, tier):
     t = _alpha(wv)
     col.check("v0.SetReference(self.Reference)" in t and "v0.SetParent(self.Parent)" in t and "v0.SetStore(self.Store)" in t and "self.__scope" in t and t.endswith("return v0"), "R14.1", f"{IR}::VariableAccessInstruction.WithVariable",
               "the copy keeps reference, parent, store operand and scope", "the copy does not keep reference/parent/store/scope of the original", IR, wv)
+
+
+def run_rest(model, col, tier, G, D):
+    from ..sem import alpha as _alpha, expand_helpers as _xh
+
+    fn = model.cls(IR, "Function")
+    bb = model.cls(IR, "BasicBlock")
     # ---------------- R14.2 ------------------------------------------------------
     lv = model.cls(LOWER, "LowerToIRVisitor")
     instr_classes = {c.name for c in D.ir_instruction_classes()}
